@@ -135,9 +135,17 @@ Print Assumptions match_op_json.
 Theorem json_eval :
   forall (re : string -> string -> option bool) (cfg : config) (e : expr) (root : json),
   hook cfg = None ->
-  unknown cfg = None -> wf_ast e -> eval re cfg [] e (doc root) <> Panic /\ clean (eval re cfg [] e (doc root)) = jeval re [] e root.
+  unknown cfg = None -> wf_ast e -> eval re cfg [] e (doc root) <> Panic /\ clean (eval re cfg [] e (doc root)) = jeval re None [] e root.
 Proof. exact JsonEval.json_eval. Qed.
 Print Assumptions json_eval.
+
+Theorem json_eval_unknown :
+  forall (re : string -> string -> option bool) (unk : option json) (cfg : config) (e : expr) (root : json),
+  hook cfg = None ->
+  unknown cfg = option_map doc unk ->
+  wf_ast e -> eval re cfg [] e (doc root) <> Panic /\ clean (eval re cfg [] e (doc root)) = jeval re unk [] e root.
+Proof. exact JsonEval.json_eval_unknown. Qed.
+Print Assumptions json_eval_unknown.
 
 Theorem json_eval_example :
   let root := JObj [("items", JArr [JObj [("n", JNum 0); ("tags", JArr [JStr "a"])]; JObj [("n", JNum 0)]]); ("name", JStr "x")] in
@@ -145,7 +153,6 @@ Theorem json_eval_example :
     EBin BAnd (EMatch {| stype := SelBexpr; spath := ["name"] |} OpEq (Some "x"))
       (EColl CAny {| stype := SelBexpr; spath := ["items"] |} {| bmode := BDefault; bdefault := "it"; bindex := ""; bvalue := "" |}
          (EMatch {| stype := SelBexpr; spath := ["it"; "tags"] |} OpIsEmpty None)) in
-  jeval (fun _ _ : string => None) [] e root = Some true.
+  jeval (fun _ _ : string => None) None [] e root = Some true.
 Proof. exact JsonEval.json_eval_example. Qed.
 Print Assumptions json_eval_example.
-
